@@ -23,8 +23,11 @@ def toks(hist):
     return f"{len(hist)}" + "".join(f" {a} {int(mc)} {int(fl)} {sid}" for a, mc, fl, sid in hist)
 
 
-def sd_packet(flag, sid):
-    m = H.SOMEIPSDHeader(entries=(), flag_reboot=flag, flag_unicast=True)
+def sd_packet(flag, sid, unicast=True):
+    # the unicast flag of the SD header must be irrelevant for session tracking (the statement quantifies over every
+    # received SD message; the model's `sdRx` / c07_stack_memory_is_history do not look at it): the live-stack histories
+    # clear it on a deterministic third of the messages (gap found with seeded m96)
+    m = H.SOMEIPSDHeader(entries=(), flag_reboot=flag, flag_unicast=unicast)
     return H.SOMEIPHeader(service_id=H.SD_SERVICE, method_id=H.SD_METHOD, client_id=0, session_id=sid,
                           interface_version=1, message_type=H.SOMEIPMessageType.NOTIFICATION, payload=bytes(m.build())).build()
 
@@ -49,9 +52,9 @@ def run_stack(hist):
         log = []
         p.discovery, p.subscriber, p.announcer = Stub(log, "discovery"), Stub(log, "subscriber"), Stub(log, "announcer")
         res = []
-        for a, mc, fl, sid in hist:
+        for k, (a, mc, fl, sid) in enumerate(hist):
             del log[:]
-            loop.call(p.datagram_received, sd_packet(bool(fl), sid), ADDRS[a], bool(mc))
+            loop.call(p.datagram_received, sd_packet(bool(fl), sid, unicast=(k * 7 + sid + a) % 3 != 0), ADDRS[a], bool(mc))
             loop.run_until_idle()
             res.append(sorted(log))
         return res
